@@ -267,6 +267,9 @@ pub enum Op {
     GetMetrics { store: StoreIx },
     Subscribe { store: StoreIx, sub: SubId },
     Unsubscribe { store: StoreIx, sub: SubId },
+    /// drop the `Subscription` handle without calling `unsubscribe()`: the subscription stays
+    /// registered (the handle is only the means to end it)
+    ForgetSubscription { store: StoreIx, sub: SubId },
     /// create an iterator, signal `ready` (if any), then consume it on this thread
     Iter { store: StoreIx, it: u32, consume: Consume, ready: Option<GateId> },
     /// split iterator API: the iterator stays open across other calls of the owning thread
